@@ -23,42 +23,44 @@ private theorem cons_getD (x : Option Consistency) (d : Consistency) :
 
 /-! ### QUERY (`Connection::query_raw_with_consistency`) -/
 
-/-- **query_glue.** The QUERY frame of an unprepared statement reads back (independent parser) to: the statement text;
-the statement's consistency if it has one, else the connection's default; the statement's serial consistency
-(`Some(Some x)` → `x`, unset or `Some(None)` → none); the statement's timestamp if set, else the generator's value if a
-generator is configured, else none; the page size and paging state handed in; no values; `skip_metadata` off; and the
-header's tracing flag is the statement's tracing setting. -/
-theorem query_glue (k : Codec) (text : List UInt8) (cfg : StmtConfig) (conn : ConnCtx) (ps : Option Int32)
-    (pg : Option (List UInt8)) (f : List UInt8)
-    (h : encodeReq k (queryRequest text cfg conn ps pg) none cfg.tracing = .ok f) (hlen : f.length - 9 < 2 ^ 32) :
+/-- **query_glue.** (connection level; consistency and serial consistency are the method's ARGUMENTS — see
+`session_query_glue` for who decides them.)  The QUERY frame reads back (independent parser) to: the statement text; the
+consistency and serial consistency passed in; the statement's timestamp if set, else the generator's value if a
+generator is configured, else none; the page size and paging state passed in; no values; `skip_metadata` off.  The
+tracing flag is an input of `encodeReq` here (`send_request(.., statement.config.tracing, ..)`); that it is the
+statement's setting is tied by the run. -/
+theorem query_glue (k : Codec) (text : List UInt8) (cons : Consistency) (serial : Option SerialConsistency)
+    (cfg : StmtConfig) (conn : ConnCtx) (ps : Option Int32) (pg : Option (List UInt8)) (f : List UInt8)
+    (h : encodeReq k (queryRequest text cons serial cfg conn ps pg) none cfg.tracing = .ok f)
+    (hlen : f.length - 9 < 2 ^ 32) :
     parseReq false f = some ⟨false, cfg.tracing, 0, .query text
-      { consistency := match cfg.consistency with | some c => c | none => conn.defaultConsistency
+      { consistency := cons
         skipMetadata := false
         values := []
         pageSize := ps.map Int32.toInt
         pagingState := pg
-        serialConsistency := match cfg.serialConsistency with | some (some s) => some s | _ => none
+        serialConsistency := serial
         timestamp := (match cfg.timestamp with | some t => some t | none => conn.genTimestamp).map Int64.toInt }⟩ := by
   have hp := (parse_encode k _ cfg.tracing f h hlen).1
-  have hm : hasMetadataId (queryRequest text cfg conn ps pg) = false := rfl
+  have hm : hasMetadataId (queryRequest text cons serial cfg conn ps pg) = false := rfl
   rw [hm] at hp
   rw [hp]
-  simp only [queryRequest, view, viewParams, determineConsistency, requestSerial, requestTimestamp, serial_join,
-    cons_getD]
+  simp only [queryRequest, view, viewParams, requestTimestamp]
   rcases cfg with ⟨c, sc, ts, tr⟩
-  cases c <;> cases ts <;> rcases sc with _ | _ | _ <;> rfl
+  cases ts <;> rfl
 
 /-- A QUERY is always sent unless the text or the paging state is 2 GiB or more. -/
-theorem query_sent (k : Codec) (text : List UInt8) (cfg : StmtConfig) (conn : ConnCtx) (ps : Option Int32)
+theorem query_sent (k : Codec) (text : List UInt8) (cons : Consistency) (serial : Option SerialConsistency)
+    (cfg : StmtConfig) (conn : ConnCtx) (ps : Option Int32)
     (pg : Option (List UInt8)) (ht : text.length < 2 ^ 31) (hpg : ∀ b, pg = some b → b.length < 2 ^ 31) :
-    ∃ f, encodeReq k (queryRequest text cfg conn ps pg) none cfg.tracing = .ok f := by
-  have hr : Representable (queryRequest text cfg conn ps pg) :=
+    ∃ f, encodeReq k (queryRequest text cons serial cfg conn ps pg) none cfg.tracing = .ok f := by
+  have hr : Representable (queryRequest text cons serial cfg conn ps pg) :=
     ⟨ht, ⟨by simp [queryRequest], by simp [queryRequest]⟩, by simpa [queryRequest] using hpg⟩
   obtain ⟨b, hb⟩ := representable_accepted _ hr
   simp [encodeReq, hb]
 
 example : ∃ f, encodeReq ⟨id, fun _ _ => none, some, fun _ => none, fun _ => none⟩
-    (queryRequest [0x78] ⟨none, some (some .serial), none, true⟩ ⟨.localQuorum, some 7, false⟩ (some 10) none) none true
+    (queryRequest [0x78] .localQuorum (some .serial) ⟨none, none, none, true⟩ ⟨.localQuorum, some 7, false⟩ (some 10) none) none true
       = .ok f ∧ f.drop 9 = [0, 0, 0, 1, 0x78, 0, 6, 0x34, 0, 0, 0, 10, 0, 8, 0, 0, 0, 0, 0, 0, 0, 7] :=
   ⟨_, rfl, by decide⟩
 
@@ -75,32 +77,33 @@ theorem cached_metadata_decision (p : PreparedInfo) (ext : Bool) :
   cases ext <;> by_cases hc : p.resultColCount = 0 <;> cases hu : p.useCachedResultMetadata <;>
     cases hm : p.resultMetadataId <;> simp [cachedMetadataParams, hc, hu, hm]
 
-/-- **execute_glue.** The EXECUTE frame reads back to: the prepared statement's id; the result-metadata id and
-`skip_metadata` of `cached_metadata_decision`; consistency / serial consistency / timestamp as for QUERY; the bound
-values in order; page size and paging state; tracing flag = the statement's. The parser is in the connection's
-negotiated mode (`conn.metadataIdExt`). -/
-theorem execute_glue (k : Codec) (p : PreparedInfo) (vals : List RawVal) (cfg : StmtConfig) (conn : ConnCtx)
+/-- **execute_glue.** (connection level; consistency / serial consistency are arguments.)  The EXECUTE frame reads
+back to: the prepared statement's id; the result-metadata id and `skip_metadata` of `cached_metadata_decision`; the
+consistency and serial consistency passed in; timestamp as for QUERY; the bound values in order; page size and paging
+state.  The parser is in the connection's negotiated mode (`conn.metadataIdExt`). -/
+theorem execute_glue (k : Codec) (p : PreparedInfo) (vals : List RawVal) (cons : Consistency)
+    (serial : Option SerialConsistency) (cfg : StmtConfig) (conn : ConnCtx)
     (ps : Option Int32) (pg : Option (List UInt8)) (f : List UInt8)
-    (h : encodeReq k (executeRequest p vals cfg conn ps pg) none cfg.tracing = .ok f) (hlen : f.length - 9 < 2 ^ 32) :
+    (h : encodeReq k (executeRequest p vals cons serial cfg conn ps pg) none cfg.tracing = .ok f)
+    (hlen : f.length - 9 < 2 ^ 32) :
     parseReq conn.metadataIdExt f = some ⟨false, cfg.tracing, 0, .execute p.id (cachedMetadataParams p conn.metadataIdExt).2
-      { consistency := match cfg.consistency with | some c => c | none => conn.defaultConsistency
+      { consistency := cons
         skipMetadata := (cachedMetadataParams p conn.metadataIdExt).1
         values := vals
         pageSize := ps.map Int32.toInt
         pagingState := pg
-        serialConsistency := match cfg.serialConsistency with | some (some s) => some s | _ => none
+        serialConsistency := serial
         timestamp := (match cfg.timestamp with | some t => some t | none => conn.genTimestamp).map Int64.toInt }⟩ := by
   have hp := (parse_encode k _ cfg.tracing f h hlen).1
-  have hm : hasMetadataId (executeRequest p vals cfg conn ps pg) = conn.metadataIdExt := by
+  have hm : hasMetadataId (executeRequest p vals cons serial cfg conn ps pg) = conn.metadataIdExt := by
     have := (cached_metadata_decision p conn.metadataIdExt).2.1
     simp only [executeRequest, hasMetadataId]
     cases hx : (cachedMetadataParams p conn.metadataIdExt).2 <;> simp_all
   rw [hm] at hp
   rw [hp]
-  simp only [executeRequest, view, viewParams, determineConsistency, requestSerial, requestTimestamp, serial_join,
-    cons_getD]
+  simp only [executeRequest, view, viewParams, requestTimestamp]
   rcases cfg with ⟨c, sc, ts, tr⟩
-  cases c <;> cases ts <;> rcases sc with _ | _ | _ <;> rfl
+  cases ts <;> rfl
 
 -- non-vacuity: extension on, cached columns -> skip_metadata with the cached id; no columns -> full metadata, empty id
 example : cachedMetadataParams ⟨[1], 2, some [7, 7], false⟩ true = (true, some [7, 7]) ∧
@@ -110,16 +113,19 @@ example : cachedMetadataParams ⟨[1], 2, some [7, 7], false⟩ true = (true, so
 
 /-! ### paged iteration (`Connection::execute_iter`) -/
 
-/-- **pager_glue.** A paged iteration sends one EXECUTE per page: the first without a paging state, the `i+1`-th with
-exactly the paging state the server returned for page `i`; all with the statement's page size and the same statement,
-values and configuration. -/
+/-- **pager_glue.** The single-connection pager (`Connection::execute_iter`) sends one EXECUTE per page: the first
+without a paging state, the `i+1`-th with exactly the paging state the server returned for page `i`; all with the
+statement's page size, the same statement / values, and — decided here by the connection itself — the statement's
+consistency (else the connection default) and its flattened serial consistency. -/
 theorem pager_glue (p : PreparedInfo) (vals : List RawVal) (cfg : StmtConfig) (conn : ConnCtx) (ps : Int32)
     (states : List (List UInt8)) :
     pagerRequests p vals cfg conn ps states =
-      executeRequest p vals cfg conn (some ps) none ::
-        states.map (fun s => executeRequest p vals cfg conn (some ps) (some s)) ∧
+      executeRequest p vals (match cfg.consistency with | some c => c | none => conn.defaultConsistency)
+          (match cfg.serialConsistency with | some (some s) => some s | _ => none) cfg conn (some ps) none ::
+        states.map (fun s => executeRequest p vals (match cfg.consistency with | some c => c | none => conn.defaultConsistency)
+          (match cfg.serialConsistency with | some (some s) => some s | _ => none) cfg conn (some ps) (some s)) ∧
     (pagerRequests p vals cfg conn ps states).length = states.length + 1 := by
-  simp [pagerRequests, List.map_map, Function.comp_def]
+  simp [pagerRequests, List.map_map, Function.comp_def, determineConsistency, requestSerial, serial_join, cons_getD]
 
 /-! ### BATCH (`Connection::batch_with_consistency`, `prepare_batch`) -/
 
@@ -185,25 +191,25 @@ theorem prepareBatch_spec (server : List UInt8 → List UInt8 × Nat) (stmts : L
   | none => rfl
   | some s => cases s <;> rfl
 
-/-- **batch_glue.** The BATCH frame built through the connection reads back to: the batch type; the statements of
-`prepareBatch` in order (text for unprepared, id for prepared), each with its own value row in order; the batch's
-consistency / serial consistency / timestamp with the same defaulting as QUERY; tracing flag = the batch's.  And a
-frame exists only if there is exactly one row per statement and every row has as many values as its statement has bind
-markers (0 for an unprepared statement). -/
+/-- **batch_glue.** (connection level; consistency / serial consistency are arguments.)  The BATCH frame built through
+the connection reads back to: the batch type; the statements of `prepareBatch` in order (text for unprepared, id for
+prepared), each with its own value row in order; the consistency / serial consistency passed in; the batch's timestamp
+(else the generator's).  And a frame exists only if there is exactly one row per statement and every row has as many
+values as its statement has bind markers (0 for an unprepared statement). -/
 theorem batch_glue (k : Codec) (server : List UInt8 → List UInt8 × Nat) (ty : BatchType) (stmts : List GlueStmt)
-    (rows : List (List RawVal)) (cfg : StmtConfig) (conn : ConnCtx) (f : List UInt8)
-    (h : encodeFrameOf k (batchRequestBody server ty stmts rows cfg conn) Generated.requestOpcode_Batch none cfg.tracing
-      = .ok f) (hlen : f.length - 9 < 2 ^ 32) :
+    (rows : List (List RawVal)) (cons : Consistency) (serial : Option SerialConsistency) (cfg : StmtConfig)
+    (conn : ConnCtx) (f : List UInt8)
+    (h : encodeFrameOf k (batchRequestBody server ty stmts rows cons serial cfg conn) Generated.requestOpcode_Batch none
+      cfg.tracing = .ok f) (hlen : f.length - 9 < 2 ^ 32) :
     parseReq false f = some ⟨false, cfg.tracing, 0, .batch ty
       ((((prepareBatch server stmts rows).map stmtWithCtx).map Prod.fst).map viewStmt |>.zip rows)
-      (match cfg.consistency with | some c => c | none => conn.defaultConsistency)
-      (match cfg.serialConsistency with | some (some s) => some s | _ => none)
+      cons serial
       ((match cfg.timestamp with | some t => some t | none => conn.genTimestamp).map Int64.toInt)⟩ ∧
     stmts.length = rows.length ∧
     ((prepareBatch server stmts rows).map stmtWithCtx).map Prod.snd = rows.map List.length := by
   have hp := adapter_batch_parse k ty ((prepareBatch server stmts rows).map stmtWithCtx) rows
-    (determineConsistency cfg conn) (requestSerial cfg) (requestTimestamp cfg conn) cfg.tracing f h hlen
-  cases hb : batchRequestBody server ty stmts rows cfg conn with
+    cons serial (requestTimestamp cfg conn) cfg.tracing f h hlen
+  cases hb : batchRequestBody server ty stmts rows cons serial cfg conn with
   | error e => rw [hb] at h; simp [encodeFrameOf] at h
   | ok b =>
     obtain ⟨hbody, hctx⟩ := adapter_batch_refines _ _ _ _ _ _ _ hb
@@ -213,14 +219,97 @@ theorem batch_glue (k : Codec) (server : List UInt8 → List UInt8 × Nat) (ty :
       simpa [prepareBatch] using this
     refine ⟨?_, hl, hctx⟩
     rw [hp]
-    simp only [determineConsistency, requestSerial, requestTimestamp, serial_join, cons_getD]
+    simp only [requestTimestamp]
     rcases cfg with ⟨c, sc, ts, tr⟩
-    cases c <;> cases ts <;> rcases sc with _ | _ | _ <;> rfl
+    cases ts <;> rfl
 
 example : (match batchRequestBody (fun _ => ([9], 1)) .logged [.unprepared [0x78], .prepared [1] 1] [[.null], [.unset]]
-      ⟨none, none, none, false⟩ ⟨.one, some 5, false⟩,
-    batchRequestBody (fun _ => ([9], 1)) .logged [.unprepared [0x78]] [[.null], []] ⟨none, none, none, false⟩ ⟨.one, none, false⟩ with
+      .one none ⟨none, none, none, false⟩ ⟨.one, some 5, false⟩,
+    batchRequestBody (fun _ => ([9], 1)) .logged [.unprepared [0x78]] [[.null], []] .one none ⟨none, none, none, false⟩
+      ⟨.one, none, false⟩ with
     | .ok _, .error (.batchMismatch 2 1) => true | _, _ => false) = true := by decide +kernel
+
+/-! ### the `Session` layer decides consistency, serial consistency and page size
+(`RequestExecutionParams::new_for_session_apis`, `PagerWorker`, `Session::{query,execute}_{unpaged,single_page,iter}`, `batch`) -/
+
+/-- **session_defaulting.** What `Session` passes down: the statement's consistency if it has one, else the execution
+profile's — the statement's own profile if it has one, else the session's default; the statement's serial consistency
+if set (an explicit `None` means none), else that profile's; no page size for `*_unpaged`, the statement's page size for
+`*_single_page` / `*_iter`. -/
+theorem session_defaulting (cfg : StmtConfig) (sp : Option ExecProfile) (sd : ExecProfile) (m : Paging) (sps : Int32) :
+    sessionConsistency cfg (chosenProfile sp sd) =
+      (match cfg.consistency with
+       | some c => c
+       | none => match sp with | some p => p.consistency | none => sd.consistency) ∧
+    sessionSerial cfg (chosenProfile sp sd) =
+      (match cfg.serialConsistency with
+       | some s => s
+       | none => match sp with | some p => p.serialConsistency | none => sd.serialConsistency) ∧
+    sessionPageSize m sps = (match m with | .unpaged => none | .paged => some sps) := by
+  rcases cfg with ⟨c, sc, ts, tr⟩
+  refine ⟨?_, ?_, ?_⟩
+  · cases c <;> cases sp <;> rfl
+  · cases sc <;> cases sp <;> rfl
+  · cases m <;> rfl
+
+/-- **session_query_glue.** A QUERY sent through `Session` says: the statement's consistency if set, else the chosen
+profile's; the statement's serial consistency if set (explicit `None` = none), else the chosen profile's; page size per
+`session_defaulting`; timestamp: the statement's, else the generator's. -/
+theorem session_query_glue (k : Codec) (text : List UInt8) (cfg : StmtConfig) (sp : Option ExecProfile)
+    (sd : ExecProfile) (conn : ConnCtx) (m : Paging) (sps : Int32) (pg : Option (List UInt8)) (f : List UInt8)
+    (h : encodeReq k (sessionQuery text cfg sp sd conn m sps pg) none cfg.tracing = .ok f)
+    (hlen : f.length - 9 < 2 ^ 32) :
+    parseReq false f = some ⟨false, cfg.tracing, 0, .query text
+      { consistency := sessionConsistency cfg (chosenProfile sp sd)
+        skipMetadata := false
+        values := []
+        pageSize := (sessionPageSize m sps).map Int32.toInt
+        pagingState := pg
+        serialConsistency := sessionSerial cfg (chosenProfile sp sd)
+        timestamp := (match cfg.timestamp with | some t => some t | none => conn.genTimestamp).map Int64.toInt }⟩ :=
+  query_glue k text _ _ cfg conn _ pg f h hlen
+
+/-- **session_execute_glue.** The same for EXECUTE (every page of `execute_iter` too: `sessionIterExecutes`). -/
+theorem session_execute_glue (k : Codec) (p : PreparedInfo) (vals : List RawVal) (cfg : StmtConfig)
+    (sp : Option ExecProfile) (sd : ExecProfile) (conn : ConnCtx) (m : Paging) (sps : Int32) (pg : Option (List UInt8))
+    (f : List UInt8)
+    (h : encodeReq k (sessionExecute p vals cfg sp sd conn m sps pg) none cfg.tracing = .ok f)
+    (hlen : f.length - 9 < 2 ^ 32) :
+    parseReq conn.metadataIdExt f = some ⟨false, cfg.tracing, 0, .execute p.id (cachedMetadataParams p conn.metadataIdExt).2
+      { consistency := sessionConsistency cfg (chosenProfile sp sd)
+        skipMetadata := (cachedMetadataParams p conn.metadataIdExt).1
+        values := vals
+        pageSize := (sessionPageSize m sps).map Int32.toInt
+        pagingState := pg
+        serialConsistency := sessionSerial cfg (chosenProfile sp sd)
+        timestamp := (match cfg.timestamp with | some t => some t | none => conn.genTimestamp).map Int64.toInt }⟩ :=
+  execute_glue k p vals _ _ cfg conn _ pg f h hlen
+
+theorem session_iter_glue (p : PreparedInfo) (vals : List RawVal) (cfg : StmtConfig) (sp : Option ExecProfile)
+    (sd : ExecProfile) (conn : ConnCtx) (sps : Int32) (states : List (List UInt8)) :
+    sessionIterExecutes p vals cfg sp sd conn sps states =
+      sessionExecute p vals cfg sp sd conn .paged sps none ::
+        states.map (fun s => sessionExecute p vals cfg sp sd conn .paged sps (some s)) := by
+  simp [sessionIterExecutes, List.map_map, Function.comp_def]
+
+/-- **session_batch_glue.** The same for BATCH. -/
+theorem session_batch_glue (k : Codec) (server : List UInt8 → List UInt8 × Nat) (ty : BatchType) (stmts : List GlueStmt)
+    (rows : List (List RawVal)) (cfg : StmtConfig) (sp : Option ExecProfile) (sd : ExecProfile) (conn : ConnCtx)
+    (f : List UInt8)
+    (h : encodeFrameOf k (sessionBatchBody server ty stmts rows cfg sp sd conn) Generated.requestOpcode_Batch none
+      cfg.tracing = .ok f) (hlen : f.length - 9 < 2 ^ 32) :
+    parseReq false f = some ⟨false, cfg.tracing, 0, .batch ty
+      ((((prepareBatch server stmts rows).map stmtWithCtx).map Prod.fst).map viewStmt |>.zip rows)
+      (sessionConsistency cfg (chosenProfile sp sd)) (sessionSerial cfg (chosenProfile sp sd))
+      ((match cfg.timestamp with | some t => some t | none => conn.genTimestamp).map Int64.toInt)⟩ :=
+  (batch_glue k server ty stmts rows _ _ cfg conn f h hlen).1
+
+-- non-vacuity: statement unset -> the profile's LOCAL_SERIAL; explicit None -> none; statement's own profile wins over the session's
+example : sessionSerial ⟨none, none, none, false⟩ (chosenProfile none ⟨.localQuorum, some .localSerial⟩) = some .localSerial ∧
+    sessionSerial ⟨none, some none, none, false⟩ (chosenProfile none ⟨.localQuorum, some .localSerial⟩) = none ∧
+    sessionConsistency ⟨none, none, none, false⟩ (chosenProfile (some ⟨.two, none⟩) ⟨.localQuorum, some .localSerial⟩) = .two ∧
+    sessionConsistency ⟨some .all, none, none, false⟩ (chosenProfile (some ⟨.two, none⟩) ⟨.localQuorum, none⟩) = .all := by
+  decide
 
 /-! ### STARTUP (`open_connection`) -/
 
@@ -249,28 +338,56 @@ theorem startup_glue (n : Negotiated) (c : Option Compression) :
     (∀ v, (Generated.startup_key_TABLETS_ROUTING_V1, v) ∈ startupOptions n c ↔ n.tabletsV1 = true ∧ v = []) ∧
     (∀ v, (Generated.startup_key_RATE_LIMIT_ERROR, v) ∈ startupOptions n c ↔ n.rateLimitError = true ∧ v = []) := by
   rcases n with ⟨rl, lwt, tab, mid, cs⟩
-  refine ⟨by simp [startupOptions], ?_, ?_, ?_, ?_, ?_⟩
+  refine ⟨by simp [startupOptions, startupOptionsId], ?_, ?_, ?_, ?_, ?_⟩
   · intro v
     cases c <;> cases cs <;> cases rl <;> cases lwt <;> cases tab <;> cases mid <;>
-      simp [startupOptions, Generated.startup_key_COMPRESSION, Generated.startup_key_RATE_LIMIT_ERROR,
+      simp [startupOptions, startupOptionsId, featureOptions, identityOptions, optEntry, compressionOption, Generated.startup_key_COMPRESSION, Generated.startup_key_RATE_LIMIT_ERROR,
         Generated.startup_key_LWT_MARK, Generated.startup_key_TABLETS_ROUTING_V1, Generated.startup_key_USE_METADATA_ID,
         Generated.startup_key_CQL_VERSION, Generated.startup_key_DRIVER_NAME, Generated.startup_key_DRIVER_VERSION]
   · cases c <;> cases cs <;> simp [effectiveCompression]
   · intro v
     cases c <;> cases cs <;> cases rl <;> cases lwt <;> cases tab <;> cases mid <;>
-      simp [startupOptions, Generated.startup_key_COMPRESSION, Generated.startup_key_RATE_LIMIT_ERROR,
+      simp [startupOptions, startupOptionsId, featureOptions, identityOptions, optEntry, compressionOption, Generated.startup_key_COMPRESSION, Generated.startup_key_RATE_LIMIT_ERROR,
         Generated.startup_key_LWT_MARK, Generated.startup_key_TABLETS_ROUTING_V1, Generated.startup_key_USE_METADATA_ID,
         Generated.startup_key_CQL_VERSION, Generated.startup_key_DRIVER_NAME, Generated.startup_key_DRIVER_VERSION]
   · intro v
     cases c <;> cases cs <;> cases rl <;> cases lwt <;> cases tab <;> cases mid <;>
-      simp [startupOptions, Generated.startup_key_COMPRESSION, Generated.startup_key_RATE_LIMIT_ERROR,
+      simp [startupOptions, startupOptionsId, featureOptions, identityOptions, optEntry, compressionOption, Generated.startup_key_COMPRESSION, Generated.startup_key_RATE_LIMIT_ERROR,
         Generated.startup_key_LWT_MARK, Generated.startup_key_TABLETS_ROUTING_V1, Generated.startup_key_USE_METADATA_ID,
         Generated.startup_key_CQL_VERSION, Generated.startup_key_DRIVER_NAME, Generated.startup_key_DRIVER_VERSION]
   · intro v
     cases c <;> cases cs <;> cases rl <;> cases lwt <;> cases tab <;> cases mid <;>
-      simp [startupOptions, Generated.startup_key_COMPRESSION, Generated.startup_key_RATE_LIMIT_ERROR,
+      simp [startupOptions, startupOptionsId, featureOptions, identityOptions, optEntry, compressionOption, Generated.startup_key_COMPRESSION, Generated.startup_key_RATE_LIMIT_ERROR,
         Generated.startup_key_LWT_MARK, Generated.startup_key_TABLETS_ROUTING_V1, Generated.startup_key_USE_METADATA_ID,
         Generated.startup_key_CQL_VERSION, Generated.startup_key_DRIVER_NAME, Generated.startup_key_DRIVER_VERSION]
+
+/-- **identity_glue.** What a (custom) `SelfIdentity` contributes to STARTUP: DRIVER_NAME / DRIVER_VERSION always — the
+custom value if set, else the crate's defaults; APPLICATION_NAME, APPLICATION_VERSION, CLIENT_ID exactly when set, with
+the caller's value; and the whole map is features ++ CQL_VERSION ++ identity ++ compression, under pairwise distinct keys. -/
+theorem identity_glue (id : Identity) (n : Negotiated) (c : Option Compression) :
+    startupOptionsId id n c = featureOptions n ++ [(Generated.startup_key_CQL_VERSION, Generated.startup_CQL_VERSION_value)]
+      ++ identityOptions id ++ compressionOption n c ∧
+    (Generated.startup_key_DRIVER_NAME,
+      match id.driverName with | some v => v | none => Generated.startup_DRIVER_NAME_value) ∈ identityOptions id ∧
+    (Generated.startup_key_DRIVER_VERSION,
+      match id.driverVersion with | some v => v | none => Generated.startup_DRIVER_VERSION_value) ∈ identityOptions id ∧
+    (∀ v, id.applicationName = some v → (Generated.startup_key_APPLICATION_NAME, v) ∈ identityOptions id) ∧
+    (∀ v, id.applicationVersion = some v → (Generated.startup_key_APPLICATION_VERSION, v) ∈ identityOptions id) ∧
+    (∀ v, id.clientId = some v → (Generated.startup_key_CLIENT_ID, v) ∈ identityOptions id) ∧
+    (identityOptions id).length = 2 + id.applicationName.toList.length + id.applicationVersion.toList.length
+      + id.clientId.toList.length ∧
+    [Generated.startup_key_CQL_VERSION, Generated.startup_key_DRIVER_NAME, Generated.startup_key_DRIVER_VERSION,
+     Generated.startup_key_APPLICATION_NAME, Generated.startup_key_APPLICATION_VERSION, Generated.startup_key_CLIENT_ID,
+     Generated.startup_key_COMPRESSION, Generated.startup_key_RATE_LIMIT_ERROR, Generated.startup_key_LWT_MARK,
+     Generated.startup_key_TABLETS_ROUTING_V1, Generated.startup_key_USE_METADATA_ID].Nodup := by
+  rcases id with ⟨dn, dv, an, av, ci⟩
+  refine ⟨rfl, ?_, ?_, ?_, ?_, ?_, ?_, by decide +kernel⟩
+  · cases dn <;> simp [identityOptions]
+  · cases dv <;> simp [identityOptions]
+  · intro v h; simp only [] at h; subst h; simp [identityOptions, optEntry]
+  · intro v h; simp only [] at h; subst h; simp [identityOptions, optEntry]
+  · intro v h; simp only [] at h; subst h; simp [identityOptions, optEntry]
+  · cases an <;> cases av <;> cases ci <;> simp [identityOptions, optEntry]
 
 example : startupOptions ⟨false, some 2147483648, false, true, true⟩ (some .lz4) =
     [(ascii "SCYLLA_LWT_ADD_METADATA_MARK", ascii "LWT_OPTIMIZATION_META_BIT_MASK=2147483648"),
